@@ -450,3 +450,162 @@ package hclwrite
 //@ requires forall j int :: { tokens[j] } 0 <= j && j < len(tokens) ==> tokens[j] != nil
 //@ assigns allof(Token)
 //@ ensures frame: tokFrame()
+
+// ---- writer loader: token partitioning conserves tokens (unit U6) ----
+// verif:unit U6 props=C10
+
+// verif:pred paired(it inputTokens) = len(it.nativeTokens) == len(it.writerTokens)
+// verif:pred pairedNN(it inputTokens) = len(it.nativeTokens) == len(it.writerTokens) && (forall j int :: { it.writerTokens[j] } 0 <= j && j < len(it.writerTokens) ==> it.writerTokens[j] != nil)
+// piece(p, it, lo, n): p is the n tokens of it starting at position lo (both token views).
+// verif:pred piece(p inputTokens, it inputTokens, lo int, n int) = org(p.nativeTokens) == adv(org(it.nativeTokens), lo) && org(p.writerTokens) == adv(org(it.writerTokens), lo) && len(p.nativeTokens) == n && len(p.writerTokens) == n
+// tiles3(it, a, b, c): a, b, c are adjacent pieces whose concatenation is it (nothing dropped or duplicated).
+// verif:pred tiles3(it inputTokens, a inputTokens, b inputTokens, c inputTokens) = piece(a, it, 0, len(a.nativeTokens)) && piece(b, it, len(a.nativeTokens), len(b.nativeTokens)) && piece(c, it, len(a.nativeTokens) + len(b.nativeTokens), len(c.nativeTokens)) && len(a.nativeTokens) + len(b.nativeTokens) + len(c.nativeTokens) == len(it.nativeTokens)
+
+// verif:func partitionTokens
+//@ pure
+//@ ensures 0 <= start && start <= end && end <= len(toks)
+//@ loop 1 invariant i <= len(toks)
+//@ loop 2 invariant start <= i && i <= len(toks) && 0 <= start
+
+// verif:func partitionLeadCommentTokens
+//@ pure
+//@ ensures 0 <= ret && ret <= len(toks)
+//@ loop 1 invariant i < len(toks)
+
+// verif:func partitionLineEndTokens
+//@ maypanic
+//@ pure
+//@ ensures 0 <= afterComment && afterComment <= afterNewline && afterNewline <= len(toks)
+//@ loop 1 invariant 0 <= i && i <= len(toks)
+
+// verif:func (inputTokens).Slice
+//@ requires paired(it) && 0 <= start && start <= end && end <= len(it.nativeTokens)
+//@ pure
+//@ ensures piece(ret, it, start, end - start) && paired(ret)
+
+// verif:func (inputTokens).Len
+//@ pure
+//@ ensures ret == len(it.nativeTokens)
+
+// Every token handed to the tree goes through Tokens(): the ghost counter 'consumed' counts them,
+// so a piece that is never turned into tokens (dropped) or turned twice (duplicated) shows up
+// as a wrong count in the loader functions below.
+// verif:ghostvar consumed int
+// verif:func (inputTokens).Tokens
+//@ assigns consumed
+//@ ghost consumed = old(consumed) + len(it.writerTokens)
+//@ ensures ret === it.writerTokens && consumed == old(consumed) + len(it.writerTokens)
+
+// verif:func (inputTokens).Partition
+//@ requires paired(it)
+//@ ensures pairedOut: paired(before) && paired(within) && paired(after)
+//@ pure
+//@ ensures tiles3(it, before, within, after)
+
+// verif:func (inputTokens).PartitionType
+//@ requires pairedNN(it)
+//@ ensures pairedOut: paired(before) && paired(within) && paired(after)
+//@ maypanic
+//@ pure
+//@ ensures tiles3(it, before, within, after) && len(within.nativeTokens) == 1
+
+// verif:func (inputTokens).PartitionTypeOk
+//@ requires pairedNN(it)
+//@ ensures pairedOut: paired(before) && paired(within) && paired(after)
+//@ pure
+//@ ensures ok ==> tiles3(it, before, within, after) && len(within.nativeTokens) == 1
+//@ ensures !ok ==> len(before.nativeTokens) == 0 && len(within.nativeTokens) == 0 && len(after.nativeTokens) == 0
+
+// verif:func (inputTokens).PartitionLeadComments
+//@ requires paired(it)
+//@ ensures pairedOut: paired(before) && paired(within)
+//@ pure
+//@ ensures piece(before, it, 0, len(before.nativeTokens)) && piece(within, it, len(before.nativeTokens), len(within.nativeTokens)) && len(before.nativeTokens) + len(within.nativeTokens) == len(it.nativeTokens)
+
+// verif:func (inputTokens).PartitionLineEndTokens
+//@ requires paired(it)
+//@ ensures pairedOut: paired(comments) && paired(newline) && paired(after)
+//@ maypanic
+//@ pure
+//@ ensures tiles3(it, comments, newline, after)
+
+// verif:func (inputTokens).PartitionIncludingComments
+//@ requires paired(it)
+//@ ensures pairedOut: paired(before) && paired(within) && paired(after)
+//@ maypanic
+//@ pure
+//@ ensures tiles3(it, before, within, after)
+
+// verif:func (inputTokens).PartitionTypeSingle
+//@ requires pairedNN(it)
+//@ maypanic
+//@ assigns consumed
+//@ ensures pieces: piece(before, it, 0, len(before.nativeTokens)) && piece(after, it, len(before.nativeTokens) + 1, len(after.nativeTokens)) && len(before.nativeTokens) + 1 + len(after.nativeTokens) == len(it.nativeTokens) && paired(before) && paired(after)
+//@ ensures counted: consumed == old(consumed) + 1 && found != nil
+
+// verif:func (inputTokens).PartitionBlockItem
+//@ requires paired(it)
+//@ maypanic
+//@ pure
+//@ ensures all: len(before.nativeTokens) + len(leadComments.nativeTokens) + len(within.nativeTokens) + len(lineComments.nativeTokens) + len(newline.nativeTokens) + len(after.nativeTokens) == len(it.nativeTokens)
+//@ ensures pairedOut: paired(before) && paired(leadComments) && paired(within) && paired(lineComments) && paired(newline) && paired(after)
+
+// ---- loader: every parse function turns exactly its input tokens into tree tokens ----
+// (callee preconditions about list well-formedness are unit U7's concern and assumed here)
+
+// verif:func parseTraversalStep
+//@ nosafety
+//@ assumepre
+//@ requires paired(from)
+//@ ensures counted: consumed == old(consumed) + len(from.nativeTokens) - len(before.nativeTokens) - len(after.nativeTokens)
+//@ ensures pairedOut: paired(before) && paired(after)
+
+// verif:func parseTraversal
+//@ nosafety
+//@ assumepre
+//@ requires paired(from)
+//@ ensures counted: consumed == old(consumed) + len(from.nativeTokens) - len(before.nativeTokens) - len(after.nativeTokens)
+//@ ensures pairedOut: paired(before) && paired(after)
+//@ loop 1 invariant paired(stepAfter) && paired(after) && paired(before) && consumed == old(consumed) + len(from.nativeTokens) - len(stepAfter.nativeTokens)
+
+// verif:func parseExpression
+//@ nosafety
+//@ assumepre
+//@ requires paired(from)
+//@ ensures counted: consumed == old(consumed) + len(from.nativeTokens)
+//@ loop 1 invariant paired(from) && consumed == old(consumed) + len(old(from).nativeTokens) - len(from.nativeTokens)
+
+// verif:func parseBlockLabels
+//@ nosafety
+//@ assumepre
+//@ requires paired(from)
+//@ ensures counted: consumed == old(consumed) + len(from.nativeTokens) - len(ret0.nativeTokens) - len(ret2.nativeTokens)
+//@ ensures pairedOut: paired(ret0) && paired(ret2)
+//@ loop 1 invariant paired(from) && paired(beforeAll) && consumed == old(consumed) + len(old(from).nativeTokens) - len(from.nativeTokens) - len(beforeAll.nativeTokens)
+
+// verif:func parseAttribute
+//@ nosafety
+//@ assumepre
+//@ requires paired(from) && paired(leadComments) && paired(lineComments) && paired(newline)
+//@ ensures counted: consumed == old(consumed) + len(from.nativeTokens) + len(leadComments.nativeTokens) + len(lineComments.nativeTokens) + len(newline.nativeTokens)
+
+// verif:func parseBlock
+//@ nosafety
+//@ assumepre
+//@ requires paired(from) && paired(leadComments) && paired(lineComments) && paired(newline)
+//@ ensures counted: consumed == old(consumed) + len(from.nativeTokens) + len(leadComments.nativeTokens) + len(lineComments.nativeTokens) + len(newline.nativeTokens)
+
+// verif:func parseBodyItem
+//@ nosafety
+//@ assumepre
+//@ requires paired(from)
+//@ ensures counted: consumed == old(consumed) + len(from.nativeTokens) - len(ret0.nativeTokens) - len(ret2.nativeTokens)
+//@ ensures pairedOut: paired(ret0) && paired(ret2)
+
+// verif:func parseBody
+//@ nosafety
+//@ assumepre
+//@ requires paired(from)
+//@ ensures counted: consumed == old(consumed) + len(from.nativeTokens) - len(ret0.nativeTokens) - len(ret2.nativeTokens)
+//@ ensures pairedOut: paired(ret0) && paired(ret2)
+//@ loop 3 invariant paired(remain) && paired(before) && paired(after) && consumed == old(consumed) + len(within.nativeTokens) - len(remain.nativeTokens)
